@@ -188,8 +188,11 @@ class Tokenizer(html.parser.HTMLParser):
             end = ev[i + 1]["o"] if i + 1 < len(ev) else len(src)
             sl = src[e["o"]:end]
             if e["k"] == "open":
-                if e.pop("len") != len(sl):
-                    raise MachineryFailure("tokenizer bookkeeping: start tag text does not cover its slice at %d" % e["o"])
+                n = e.pop("len")
+                if n > len(sl):
+                    raise MachineryFailure("tokenizer bookkeeping: start tag text longer than its slice at %d" % e["o"])
+                if n < len(sl):  # html.parser consumed characters without reporting them (e.g. "</>")
+                    e["bad"] = sorted(set(e["bad"] + ["unattributed"]))
             elif e["k"] == "close":
                 if not RE_ENDTAG_STRICT.fullmatch(sl):
                     e["bad"].append("endtag")
@@ -507,8 +510,13 @@ def load_events(res, pg):
 
 
 def sentinel_class(res, rec, cache):
-    """structural class of a sentinel rejection: in what kind of position does the token at which the acceptor rejected carry the OPENING
-    mark of a span (that is where the template put the DSDL text); if it carries none, the span opened in character data earlier"""
+    """structural class of a sentinel rejection = the kind of position into which the template put the DSDL text.  Rejections that
+    refer to a span already open in character data (markup-in-span, span-not-closed, close-without-open, malformed markup after the
+    opening mark) are markup injection through character data; for the others the rejected token itself carries the OPENING mark in a
+    position where no DSDL text may be (attribute value it breaks out of, tag/attribute name, comment, raw text element)."""
+    d = rec["detail"]
+    if d in ("markup-in-span", "span-not-closed", "close-without-open") or (d == "malformed-markup-in-span" and rec.get("arg")):
+        return "doc-comment-markup-injection"
     if rec["pg"] not in cache:
         cache[rec["pg"]] = load_events(res, rec["pg"])
     e = cache[rec["pg"]].get(rec["n"], {}) if rec["k"] != "enddoc" else {}
@@ -526,7 +534,7 @@ def sentinel_class(res, rec, cache):
     return "doc-comment-markup-injection"
 
 
-def verdicts(ctx, results, cases, origin):
+def verdicts(ctx, results, cases, origin, only=None):
     """turn the T-layer's records into VIOLATION / notes.  Returns per run the set of (clause, page, detail...) for drift checks."""
     recs = judge(ctx, results)
     summary = {}
@@ -545,6 +553,11 @@ def verdicts(ctx, results, cases, origin):
         uni = Universe(case["universe"])
         replay_case = {"universe": case["universe"], "public": case.get("public", False), "origin": origin}
         damaged = set()
+
+        def report(sig, what, **kw):
+            if only is None or sig == only:  # a replay asks about the recorded failure, not about every other clause of that universe
+                ctx.violation(sig, what, dict(replay_case, signature=sig, **kw))
+
         # per page: the FIRST sentinel rejection (token order) names the class; everything after it on that page is a consequence of
         # the markup the payload introduced (the page is read differently from there on) and is counted, not reported again
         for pg, lst in pages_rej.items():
@@ -562,15 +575,15 @@ def verdicts(ctx, results, cases, origin):
                     summ["sentinel"].add(path)
                     damaged.add(path)
                     sid = rec.get("arg") or 0
-                    ctx.violation("C20|html.sentinel|%s" % klass,
-                                  "page %s (%s): %s%s - text taken from a DSDL definition reaches the page as markup, not as character data"
-                                  % (path, page_kind(path), rec["detail"], (" span %d (%s) payload %r" % (sid, uni.slot.get(sid), uni.spans.get(sid))) if sid else ""),
-                                  dict(replay_case, page=path, clause=cl, detail=rec["detail"], event=rec["n"]))
+                    report("C20|html.sentinel|%s" % klass,
+                           "page %s (%s): %s%s - text taken from a DSDL definition reaches the page as markup, not as character data"
+                           % (path, page_kind(path), rec["detail"], (" span %d (%s) payload %r" % (sid, uni.slot.get(sid), uni.spans.get(sid))) if sid else ""),
+                           page=path, clause=cl, detail=rec["detail"], event=rec["n"])
                 elif cl == "html.balanced":
                     summ["balanced"].add(path)
-                    ctx.violation("C20|html.balanced|%s|%s" % (rec["detail"], page_kind(path)),
-                                  "page %s is not well-formed: %s at token %d" % (path, rec["detail"], rec["n"]),
-                                  dict(replay_case, page=path, clause=cl, detail=rec["detail"], event=rec["n"]))
+                    report("C20|html.balanced|%s|%s" % (rec["detail"], page_kind(path)),
+                           "page %s is not well-formed: %s at token %d" % (path, rec["detail"], rec["n"]),
+                           page=path, clause=cl, detail=rec["detail"], event=rec["n"])
                 else:
                     raise MachineryFailure("unknown clause from the T-layer: %r" % rec)
         for rec in rr:
@@ -599,9 +612,9 @@ def verdicts(ctx, results, cases, origin):
                     sig = "C20|html.link|service-request-response-anchor"
                 else:
                     sig = "C20|html.link|%s|%s|%s" % (page_kind(path), rec["detail"], "+".join(tk))
-                ctx.violation(sig, "hyperlink %r for a reference to %s on page %s does not resolve: %s"
-                              % (href, ", ".join(uni.full(T[i]) for i in rec["refs"]), path, rec["detail"]),
-                              dict(replay_case, page=path, clause="html.link", detail=rec["detail"], href=href))
+                report(sig, "hyperlink %r for a reference to %s on page %s does not resolve: %s"
+                       % (href, ", ".join(uni.full(T[i]) for i in rec["refs"]), path, rec["detail"]),
+                       page=path, clause="html.link", detail=rec["detail"], href=href)
         npages = len(r["index"])
         bad_pages = len(set(pages_rej) | {rec["pg"] for rec in rr if rec["tag"] == "REJECT"})
         ctx.validated(npages - bad_pages)
@@ -995,4 +1008,4 @@ def replay(ctx, case):
     res = work((0, uni, bool(case.get("public")), str(ctx.scratch)))
     if res["error"]:
         raise MachineryFailure("replay: generator raised %s" % res["error"])
-    verdicts(ctx, [res], {0: {"universe": uni, "public": case.get("public", False)}}, "replay")
+    verdicts(ctx, [res], {0: {"universe": uni, "public": case.get("public", False)}}, "replay", only=case.get("signature"))
